@@ -17,7 +17,15 @@ WideConfigs ==
         d \in {<<513, 2>>, <<1025, 1>>, <<4097, 1>>, <<2, 300>>, <<512, 3>>},
         so \in {<<0, 0>>, <<-3, 2>>}, dor \in {<<0, 0>>, <<5, -1>>}, e \in {0, 1},
         m \in {<<0, 0, 0, 0>>, <<1, 2, 0, 1>>}, p \in {1, 3}, ip \in BOOLEAN }
-WideInit == cfg \in { c \in WideConfigs : c.inplace => (c.dx = c.sx /\ c.dy = c.sy /\ c.ew = 0) }
+\* a destination strictly larger than the source whose rectangle contains the source's, the two
+\* origins differing (the source may be a sub-image of the destination's parent): the result still
+\* lands at the destination's origin, not at the source's coordinates
+ContainedConfigs ==
+    { [sw |-> 5, sh |-> 4, sx |-> so[1], sy |-> so[2], dx |-> dor[1], dy |-> dor[2],
+       ew |-> e[1], eh |-> e[2], ml |-> m[1], mr |-> m[2], mt |-> m[3], mb |-> m[4], p |-> p, inplace |-> FALSE] :
+        so \in {<<2, 3>>, <<1, 1>>, <<-1, 0>>}, dor \in {<<0, 0>>, <<-2, -1>>},
+        e \in {<<4, 4>>, <<2, 5>>, <<6, 1>>}, m \in {<<0, 0, 0, 0>>, <<1, 2, 0, 1>>}, p \in {1, 3} }
+WideInit == cfg \in { c \in WideConfigs : c.inplace => (c.dx = c.sx /\ c.dy = c.sy /\ c.ew = 0) } \cup ContainedConfigs
 WideSpec == WideInit /\ [][FALSE]_cfg
 PrintWide ==
     LET ws == WritesSeq(cfg)
